@@ -64,7 +64,11 @@ def quadratic_spline(
     min_bin_width=DEFAULT_MIN_BIN_WIDTH,
     min_bin_height=DEFAULT_MIN_BIN_HEIGHT,
 ):
-    if torch.min(inputs) < left or torch.max(inputs) > right:
+    if inverse:
+        lower, upper = bottom, top
+    else:
+        lower, upper = left, right
+    if torch.min(inputs) < lower or torch.max(inputs) > upper:
         raise InputOutsideDomain()
 
     if inverse:
